@@ -397,6 +397,122 @@ fn c04_port_r3_ics_both_absent() {
 	kani::cover!(a == b, "rollback: same id twice");
 }
 
+// @verif property=C04,C01 tier=thorough mem=16 timeout=5400
+// @encodes peppi::io::slippi::de::parse_event (Frame Start / Frame End arms) + ParseState::frame_close on an Ice Climbers port that has no character events at all: null padding of leader AND follower, one entry per frame row
+// @symbolic 300 two frame ids, payload bytes of 4 events
+// @bound version 3.16.0, one port holding Ice Climbers, two frame occurrences (ids arbitrary: rollback included), neither climber has events in either
+// @assume state built by ParseState::verif_from_parts; the port's column set is a typed stack object
+// @stub alloc::fmt::format = returns an empty String
+// @stub std::hash::RandomState::new = fixed keys
+// @cbmc --max-field-sensitivity-array-size 512
+#[kani::proof]
+#[kani::unwind(8)]
+#[kani::stub(alloc::fmt::format, format_stub)]
+#[kani::stub(std::hash::RandomState::new, random_state_stub)]
+fn c04_port_ics_never_present() {
+	let v = Version(3, 16, 0);
+	let mut store = new_port(v, Port::P1, true);
+	let mut state = one_port_state(v, &mut store, Port::P1);
+	let a: i32 = kani::any();
+	let b: i32 = kani::any();
+	let mut s_a: [u8; 13] = kani::any();
+	s_a[0] = 0x3A;
+	put_id(&mut s_a, a);
+	step(&mut state, &s_a, 0x3A);
+	let mut e_a: [u8; 9] = kani::any();
+	e_a[0] = 0x3C;
+	put_id(&mut e_a, a);
+	step(&mut state, &e_a, 0x3C);
+	{
+		// after the first frame is closed every column already has its row
+		let f = state.frames();
+		let p = &f.ports[0];
+		assert!(f.id.len() == 1);
+		assert!(p.leader.pre.len() == 1 && p.leader.post.len() == 1);
+		assert!(!bit(&p.leader.validity, 0, 1));
+		match p.follower.as_ref() {
+			Some(fo) => {
+				assert!(fo.pre.len() == 1 && fo.post.len() == 1);
+				assert!(!bit(&fo.validity, 0, 1));
+			}
+			None => assert!(false),
+		}
+	}
+	let mut s_b: [u8; 13] = kani::any();
+	s_b[0] = 0x3A;
+	put_id(&mut s_b, b);
+	step(&mut state, &s_b, 0x3A);
+	let mut e_b: [u8; 9] = kani::any();
+	e_b[0] = 0x3C;
+	put_id(&mut e_b, b);
+	step(&mut state, &e_b, 0x3C);
+
+	let f = state.frames();
+	assert!(f.id.len() == 2 && f.id.values()[0] == a && f.id.values()[1] == b);
+	let p = &f.ports[0];
+	assert!(p.leader.pre.len() == 2 && p.leader.post.len() == 2);
+	assert!(!bit(&p.leader.validity, 0, 2) && !bit(&p.leader.validity, 1, 2));
+	match p.follower.as_ref() {
+		Some(fo) => {
+			assert!(fo.pre.len() == 2 && fo.post.len() == 2);
+			assert!(!bit(&fo.validity, 0, 2) && !bit(&fo.validity, 1, 2));
+		}
+		None => assert!(false),
+	}
+	kani::cover!(a == b, "rollback: same id twice");
+}
+
+// @verif property=C04,C01:thorough tier=quick mem=16 timeout=3000
+// @encodes peppi::io::slippi::de::parse_event (Frame Pre / Frame Post, old framing) + ParseState::frame_close with two occupied ports, one of them an Ice Climbers port neither of whose climbers has any event: null padding of leader AND follower
+// @symbolic 670 Pre/Post payload bytes of 2 events
+// @bound version 0.1.0 (fewest columns), ports P1 (Ice Climbers, never present) and P2 (present), one frame
+// @assume state built by ParseState::verif_from_parts; column sets are a typed stack array; the final frame_close() of read() is called through a hook
+// @stub alloc::fmt::format = returns an empty String
+// @stub std::hash::RandomState::new = fixed keys
+// @cbmc --max-field-sensitivity-array-size 512
+#[kani::proof]
+#[kani::unwind(8)]
+#[kani::stub(alloc::fmt::format, format_stub)]
+#[kani::stub(std::hash::RandomState::new, random_state_stub)]
+fn c04_two_ports_ics_both_absent_v0_1() {
+	let v = Version(0, 1, 0);
+	let mut store = core::mem::ManuallyDrop::new([
+		core::mem::ManuallyDrop::into_inner(new_port(v, Port::P1, true)),
+		core::mem::ManuallyDrop::into_inner(new_port(v, Port::P2, false)),
+	]);
+	let mut state = two_port_state(v, &mut store, [Port::P1, Port::P2]);
+	const PRE: usize = 1 + 6 + 52;
+	const POST: usize = 1 + 6 + 27;
+	let a = -123i32;
+	let mut pre_a2: [u8; PRE] = kani::any();
+	put_port_header(&mut pre_a2, 0x37, a, 1, false);
+	step(&mut state, &pre_a2, 0x37);
+	let mut post_a2: [u8; POST] = kani::any();
+	put_port_header(&mut post_a2, 0x38, a, 1, false);
+	step(&mut state, &post_a2, 0x38);
+	state.verif_frame_close();
+
+	let f = state.frames();
+	assert!(f.id.len() == 1);
+	let p1 = &f.ports[0];
+	let p2 = &f.ports[1];
+	assert!(p2.leader.pre.len() == 1 && p2.leader.post.len() == 1);
+	assert!(bit(&p2.leader.validity, 0, 1));
+	assert!(p2.leader.pre.random_seed.values()[0] == u32::from_be_bytes([pre_a2[7], pre_a2[8], pre_a2[9], pre_a2[10]]));
+	assert!(p2.leader.post.character.values()[0] == post_a2[7]);
+	// the Ice Climbers port: one (null) row in every column of both climbers
+	assert!(p1.leader.pre.len() == 1 && p1.leader.post.len() == 1);
+	assert!(!bit(&p1.leader.validity, 0, 1));
+	match p1.follower.as_ref() {
+		Some(fo) => {
+			assert!(fo.pre.len() == 1 && fo.post.len() == 1);
+			assert!(!bit(&fo.validity, 0, 1));
+		}
+		None => assert!(false),
+	}
+	kani::cover!(true, "reached");
+}
+
 // @verif property=C04 tier=thorough mem=24 timeout=5400
 // @encodes peppi::io::slippi::de::parse_event with two occupied ports: each character's events land in its own port's columns, whatever the event order
 // @symbolic 2500 frame id, payloads of 4 character events
